@@ -326,7 +326,7 @@ class HistoryRun:
         if kind == "empty":
             os.makedirs(self.slot.home)
         else:
-            src = os.path.join(self.w.state_dir, "home-warm" if kind == "warm" else "home-tc")
+            src = os.path.join(self.w.state_dir, {"warm": "home-warm", "toolchain": "home-tc", "nodep": "home-nodep"}[kind])
             if not os.path.isdir(src):
                 raise HarnessError(f"cache snapshot {src} is missing (run setup)")
             cp_a(src, self.slot.home)
